@@ -132,7 +132,7 @@ fn check_cycle(ctx: &Ctx, c: &Cyc, pool: &[String], loc: &mut Local) {
   let size = c.names.len() as isize;
   let alpha: Vec<isize> = {
     let mut a = vec![0];
-    for n in [1, 2, size - 1, size, size + 1, 2 * size + 1, 1000003] {
+    for n in [1, 2, size - 1, size, size + 1, 2 * size + 1, 1000003, (1isize << 31) + 7, 3_000_000_011, (1isize << 32) + 5, (1isize << 40) + 123] {
       a.push(n);
       a.push(-n);
     }
@@ -616,7 +616,7 @@ pub fn run(ctx: &Ctx) {
       check_cycle(ctx, &cs[i], &pool, l);
     }
   });
-  ctx.subspace(&format!("{} cyclic types: every element x 15 step counts x all pairs; from_index over -2size..3size; from_name of every published name; every name of every other cycle ({} distinct names) + near misses refused", cs.len(), pool.len()), done, cs.len() as u64);
+  ctx.subspace(&format!("{} cyclic types: every element x 23 step counts (incl. beyond 2^31 and 2^32) x all pairs; from_index over -2size..3size; from_name of every published name; every name of every other cycle ({} distinct names) + near misses refused", cs.len(), pool.len()), done, cs.len() as u64);
   let lt = crate::refmodel::lunar::LunTable::build(ctx, 0, 9999);
   let units = linear_units(&civ, &lt);
   let max_inst = civ.len() as i64 * 86400 - 86401;
